@@ -1967,7 +1967,7 @@ fn utf8_digest_strings(tiered: bool) -> Vec<String> {
     found
 }
 /// `sha256("s<i>")` is valid UTF-8 for these `i` (offline search over 6·10^8 candidates; re-verified at run time)
-const SHA256_UTF8_SEEDS: &[u64] = &[@@SEEDS@@];
+const SHA256_UTF8_SEEDS: &[u64] = &[74725074, 189763270, 209929981];
 
 /// Scenario F: the counter-example to the LITERAL soundness clause, on the real contracts (`C14_sound_counterexample`):
 /// the 2n-byte preimage of an inner node is answered `has_member: true` although it is not a listed entry — no collision
